@@ -57,6 +57,6 @@ FAMILIES = {"rec": dict(
 )}
 
 
-LEVEL_TEXT = 'Theorems (Props/C20.v): the tokenizer ignores ASCII letter case; two queries with the same lower-casing get the same answer from the index/NLP pipeline; the whitespace normal form of the CLI (the norm function of the validator) ignores leading, trailing and repeated whitespace. Tied by the engine correspondence, where every case is also run with a randomly re-cased query and must give the bit-identical answer (all paths incl. typo fallback and NLP; queries built from the phrases the current NLP source tests for), and by 400 query / re-spelling pairs (other case, other Unicode whitespace runs) through ValidateQuery, which must hand the engine the same text up to letter case.'
+LEVEL_TEXT = 'Theorems (Props/C20.v): the tokenizer ignores ASCII letter case; the pipeline search sees a query only as the word list Fields(ToLower(query)) (Model/Legacy.v), which ignores letter case, padding and the length and kind of every run of blanks; two queries with the same lower-casing get the same answer from the index/NLP pipeline; the whitespace normal form of the CLI (the norm function of the validator) ignores leading, trailing and repeated whitespace. Tied by the engine correspondence, where every case is also run with a randomly re-cased query and must give the bit-identical answer (all paths incl. typo fallback and NLP; queries built from the phrases the current NLP source tests for), and by 400 query / re-spelling pairs (other case, other Unicode whitespace runs) through ValidateQuery, which must hand the engine the same text up to letter case.'
 LEVEL_NOTE = 'Partial: Unicode lower-casing and regexp cleaning of the query (the inputs of the NLP model), the TF-IDF tokenizer (Unicode classes) and, for non-ASCII or very long patterns, the fuzzy matcher are oracles computed from the query by un-modelled code; their case-invariance is compared per case, not proved. CLI whitespace normal form: C14. Trusted: Coq kernel; harness.'
 TECHNIQUE = "Coq proof over the engine model + differential correspondence (vm_compute, bit-exact scores)"
